@@ -364,6 +364,9 @@ func c01validate(res *vlib.Result, rec *krecord, recipe string, faults bool) {
 							}
 						}
 					case "Event":
+						if exitOf(ex.Execution) != 0 {
+							continue // a failed execution is retried with the same contexts: judge the retry
+						}
 						id := itemID(map[string]any{"object": cx["object"], "filterResult": cx["filterResult"]})
 						var gen int
 						key := ""
